@@ -529,8 +529,13 @@ func (s *Server) handleFileTransfer(ctx context.Context, rwc io.ReadWriter) erro
 	defer dontPanic(s.Logger)
 
 	// The first 16 bytes contain the file transfer.
+	// TCP may deliver them in several segments, so read until all 16 have arrived.
 	var t transfer
-	if _, err := io.CopyN(&t, rwc, 16); err != nil {
+	transferBuf := make([]byte, 16)
+	if _, err := io.ReadFull(rwc, transferBuf); err != nil {
+		return fmt.Errorf("error reading file transfer: %w", err)
+	}
+	if _, err := t.Write(transferBuf); err != nil {
 		return fmt.Errorf("error reading file transfer: %w", err)
 	}
 
